@@ -353,6 +353,25 @@ func c04Run(env *Env, pl *C04Plan, collect *[]byte) {
 		}
 		decoded, failed, panicked, v := decodeVerify(mutated)
 		o.Sample = map[string]any{"alteration": desc, "bound": bound, "decoded": decoded, "failed": failed}
+		if pl.Attack == "leaf" && strings.HasPrefix(desc, "/2") && decoded && panicked == "" {
+			// alterations of the header HMAC are verified a second time with a
+			// hardware-style HMAC engine whose finalisation fails: a failing
+			// engine must never make a voucher verify
+			good256, good384 := h256, h384
+			d1.HmacSums, d1.HmacFailSum = 0, 1
+			h256, h384 = d1.HMACs()
+			_, failed2, panicked2, _ := decodeVerify(mutated)
+			h256, h384 = good256, good384
+			d1.HmacFailSum = 0
+			o.Fault("hmac-engine-fails")
+			if panicked2 != "" {
+				o.Violate("C04", "verification-panicked", "hmac-fault|"+regionKey(desc), "verification with a failing HMAC engine panicked for %s: %s", desc, panicked2)
+			} else if len(failed2) == 0 {
+				o.Class = "TAMPERED-ACCEPTED"
+				o.Violate("C04", "tampered-voucher-verified", "hmac-fault|"+attackRegion(desc), "voucher altered by %s passes every verification step while the device's HMAC engine fails (%s chain %d)", desc, pl.Key, pl.Chain)
+				return
+			}
+		}
 		if panicked != "" {
 			o.Class = "PANIC"
 			o.Violate("C04", "verification-panicked", regionKey(desc), "verification of a voucher altered by %s panicked: %s", desc, panicked)
